@@ -6,7 +6,8 @@
 From Eino Require Import Base.Util Model.Graph Model.RunLoop Model.Interrupt Model.IntrObs
      Proofs.DagInv Proofs.InterruptChanDagSkip Proofs.RunLoopSusp Proofs.InterruptNested Proofs.InterruptNestedDag
      Proofs.RunLoop Proofs.RunLoopRerun Proofs.Interrupt Proofs.InterruptRerun Proofs.InterruptWitness
-     Proofs.RunLoopEagerSerial Proofs.InterruptEagerSerial.
+     Proofs.RunLoopEagerSerial Proofs.InterruptEagerSerial
+     Model.CheckpointStreamLib Model.CheckpointStream Proofs.CheckpointStream.
 From Coq Require Import Permutation.
 Open Scope N_scope.
 
@@ -502,6 +503,45 @@ Example resume_equiv_eager_serial_interrupts_happen : exists cs0 co1 co2 e,
   co_written co1 = true /\ (exists v, co_out co2 = ODone v) /\ List.length (co_log co1 ++ co_log co2) = 2%nat.
 Proof. exact ws_eager_run. Qed.
 
+(* ---------------------------------------------------------------------------------------------
+   Mixing the calling paradigms (round 4). What is checkpointed — a pending input, a channel value — is written by
+   a run with streams (Stream / Transform / Collect: the stream is concatenated) or without (Invoke: the value
+   itself) and read back by a run of either kind (the value is made a one-chunk stream again, or taken as it is).
+   Model/CheckpointStream.v is that conversion per entry (convert / restore of compose/checkpoint.go, the convert
+   pair of generic_helper.go, concatStreamReader), tied to the source by translation (Proofs/GenAgreeC05Stream.v).
+   A live entry [v] of the interrupted run (paradigm w) denoting the chunks [items], written as [s]: the resumed
+   run, of ANY paradigm r, finds a live entry of its own kind whose chunks concatenate to exactly what [items]
+   concatenate to — the same chunk, the nil value of an interface type included, or no chunk at all. Excluded is
+   the one combination without a counterpart: a stream without chunks read by a run without streams. *)
+Theorem paradigm_roundtrip : forall (V : Type) (concat_items : list (option V) -> res (option V))
+    (w r : bool) (v s : dyn V) items,
+  live V w v -> den V v = Some items -> m_convert_entry V concat_items w v = Ok s ->
+  (r = false -> items <> []) ->
+  exists v' items', m_restore_entry V r s = Ok v' /\ live V r v' /\ den V v' = Some items' /\
+                    cat V concat_items items' = cat V concat_items items.
+Proof. exact paradigm_roundtrip_l. Qed.
+
+(* F-C05g (fixed fb04a24): before the repair a run without streams wrote the nil value of an interface type (a node
+   of output type any that answered nil) as a plain nil; a resume through Stream reads that as a stream WITHOUT
+   chunks, and the node's input concatenates to nothing ("stream reader is empty") instead of the nil value *)
+Theorem paradigm_roundtrip_v0_refuted : forall (V : Type) (concat_items : list (option V) -> res (option V)),
+  m_convert_entry_v0 V concat_items false DNil = Ok DNil /\
+  m_restore_entry V true DNil = Ok (DStream []) /\
+  cat V concat_items [] = CEmpty /\ cat V concat_items [None] = COk None.
+Proof. exact paradigm_roundtrip_v0_refuted_l. Qed.
+
+(* non-vacuity: the nil value written by Invoke, read by Stream; three chunks written by Stream, read by Invoke *)
+Example paradigm_roundtrip_hypotheses_hold :
+  (live nat false DNil /\ den nat DNil = Some [None] /\
+   m_convert_entry nat (fun _ => Ok (Some 7%nat)) false DNil = Ok DNilChunk /\
+   m_restore_entry nat true DNilChunk = Ok (DStream [None])) /\
+  (live nat true (DStream [Some 1; Some 2; Some 4])%nat /\
+   m_convert_entry nat (fun _ => Ok (Some 7%nat)) true (DStream [Some 1; Some 2; Some 4])%nat = Ok (DVal 7%nat) /\
+   m_restore_entry nat false (DVal 7%nat) = Ok (DVal 7%nat)).
+Proof.
+  split; [ split; [left; reflexivity | repeat split] | split; [eexists; reflexivity | split; reflexivity] ].
+Qed.
+
 Print Assumptions loop_split_resume.
 Print Assumptions loop_split_interrupt.
 Print Assumptions resume_equiv.
@@ -528,3 +568,6 @@ Print Assumptions eager_drive_serial_is_batch_drive.
 Print Assumptions resume_equiv_eager_serial.
 Print Assumptions resume_equiv_eager_serial_hypotheses_hold.
 Print Assumptions resume_equiv_eager_serial_interrupts_happen.
+Print Assumptions paradigm_roundtrip.
+Print Assumptions paradigm_roundtrip_v0_refuted.
+Print Assumptions paradigm_roundtrip_hypotheses_hold.
